@@ -47,8 +47,14 @@ def build(c, dr, rng, label):
     s = pyPRISM.System(['A', 'B'], kT=float(c['kT']))
     s.domain = pyPRISM.Domain(length=LEN, dr=dr)
     half = dr / 2.0
-    s.diameter['A'] = c['dia'][0] * half
-    s.diameter['B'] = c['dia'][1] * half
+    if rng.random() < 0.5:
+        # a size sweep on a re-used System: both diameters first get a common value, then their own
+        s.diameter[['A', 'B']] = 1.0
+        order = ['B', 'A'] if rng.random() < 0.5 else ['A', 'B']
+    else:
+        order = ['A', 'B']
+    for t in order:
+        s.diameter[t] = c['dia'][0 if t == 'A' else 1] * half
     s.density['A'] = float(rng.uniform(0.02, 0.5))
     s.density['B'] = float(rng.uniform(0.02, 0.5))
     for name, (a, b) in PAIRS.items():
